@@ -1,6 +1,6 @@
 (* C13 -- velocities are finite differences of tracked vertices over real elapsed time.  Statements only. *)
-From Coq Require Import ZArith QArith List Bool.
-From Forsys Require Import Model.PyList Model.Tracking Model.ForceSys Proofs.TrackingProofs Proofs.ForceSysProofs.
+From Coq Require Import Reals ZArith QArith List Bool.
+From Forsys Require Import Model.Num Model.PyList Model.Tracking Model.ForceSys Model.Velocity Proofs.TrackingProofs Proofs.ForceSysProofs Proofs.VelocityProofs.
 Import ListNotations.
 
 (* not the last frame: forward difference to the tracked successor over the difference of the two time stamps *)
@@ -36,6 +36,20 @@ Proof. exact rhs_placement. Qed.
 Theorem C13_rhs_static : forall nrows vel, set_velocity_rhs nrows [] vel = zeros nrows.
 Proof. exact rhs_static. Qed.
 
+(* ---- adimensional velocities (over the reals) ---- *)
+(* the normaliser is the mean speed of ALL used junctions: n x mean = sum of their speeds ... *)
+Theorem C13_mean_speed_counts_every_junction : forall vs : list (R * R), vs <> [] ->
+  (mean_speed ROps vs * INR (length vs) = sum ROps (map (speed ROps) vs))%R.
+Proof. exact mean_speed_counts_every_junction. Qed.
+(* ... in particular a junction at rest, or one without tracked partner (velocity zero), is counted *)
+Theorem C13_resting_junction_counts : forall vs : list (R * R),
+  (mean_speed ROps ((0, 0) :: vs) * INR (S (length vs)) = sum ROps (map (speed ROps) vs))%R.
+Proof. exact resting_junction_counts. Qed.
+(* the reported pair: (right-hand side / mean speed x normalisation, mean speed); one in dimensional mode and without junctions *)
+Theorem C13_dimensional_normaliser_is_one : forall (vs : list (R * R)) (b : list R) (vn : R),
+  velocity_matrix ROps false vs b vn = (map (fun x => x / 1 * vn)%R b, 1%R).
+Proof. exact dimensional_normaliser_is_one. Qed.
+
 Example C13_example :
   calculate_velocity [(0%Q, [(1%Z, (0%Q, 0%Q))]); (2%Q, [(5%Z, (1%Q, 4%Q))])] [Some [(1%Z, Some 5%Z)]] 1%Z 0%nat
   = Some ((1 - 0) / (2 - 0), (4 - 0) / (2 - 0))%Q.
@@ -46,3 +60,6 @@ Print Assumptions C13_velocity_backward_last.
 Print Assumptions C13_velocity_no_partner.
 Print Assumptions C13_rhs_placement.
 Print Assumptions C13_rhs_static.
+Print Assumptions C13_mean_speed_counts_every_junction.
+Print Assumptions C13_resting_junction_counts.
+Print Assumptions C13_dimensional_normaliser_is_one.
